@@ -9,6 +9,7 @@ LAYOUT = {
     'same': dict(lh=['k', 'a'], rh=['k', 'b'], lkey='k', rkey='k', lkidx=[0]),
     'diff': dict(lh=['k', 'a'], rh=['b', 'j'], lkey='k', rkey='j', lkidx=[0]),
     'compound': dict(lh=['k', 'j', 'a'], rh=['k', 'j', 'b'], lkey=('k', 'j'), rkey=('k', 'j'), lkidx=[0, 1]),
+    'cswap': dict(lh=['k', 'j', 'a'], rh=['j', 'k', 'b'], lkey=('k', 'j'), rkey=('k', 'j'), lkidx=[0, 1]),
 }
 MERGE_FN = {'join': 'join', 'left': 'leftjoin', 'right': 'rightjoin', 'outer': 'outerjoin', 'anti': 'antijoin',
             'lookup': 'lookupjoin'}
@@ -35,7 +36,7 @@ def kwargs(case, prof, variant):
     """variant: dict with optional natural / prefix / presorted / buffersize / cache."""
     lay = LAYOUT[case['lay']]
     kw = {}
-    if variant.get('natural') and case['lay'] in ('same', 'compound'):
+    if variant.get('natural') and case['lay'] in ('same', 'compound', 'cswap'):
         pass   # no key arguments: natural join on the common fields
     elif lay['lkey'] == lay['rkey']:
         kw['key'] = lay['lkey']
